@@ -38,7 +38,7 @@ class C03(pw.P21Check):
     sizes = [2, 3, 4, 6, 9]
 
     def n_plans(self, tier):
-        return 6000 if tier == "quick" else 200000
+        return 20000 if tier == "quick" else 400000
 
     def time_budget(self, tier):
         return 150 if tier == "quick" else 1500
@@ -168,7 +168,9 @@ class C03(pw.P21Check):
                   "target_in_complex_part": 1 if info.get("in_complex") else 0, "target_inside_aggregate": 1 if info.get("in_aggregate") else 0,
                   "target_last_slot": 1 if info.get("last_slot") else 0, "target_first_slot": 1 if info.get("first_slot") else 0,
                   "target_followed_by_instances": 1 if info.get("followers") else 0}
-        return {"shape": core.hash_obj([plan["schema"], plan["kind"], info.get("where"), info.get("cat"), bool(info.get("followers"))]),
+        tgt = [x for x in plan["model"]["insts"] if x["id"] == info.get("target_id")]
+        tent = "+".join(p["ent"] for p in tgt[0]["parts"]) if tgt else None
+        return {"shape": core.hash_obj([plan["schema"], plan["kind"], tent, info.get("where"), info.get("cat"), bool(info.get("followers")), pw.delivery_class(plan["delivery"])]),
                 "nontrivial": applied and clean,
                 "probes": probes, "faults": {"record-corrupt:" + plan["kind"]: 1} if applied else {}, "io": done[0]["io_reads"] if done else 0,
                 "state": core.hash_obj([plan["kind"], rd.get("sev"), rd.get("insts")])}
